@@ -1557,6 +1557,69 @@ def judge_lines(lines, extents, contiguous_from_0):
     return problems
 
 
+def line_addr(l, base):
+    """(absolute address, payload bytes) a data line describes: page = tag type - first tag type"""
+    t, _ndx, tag, _raw = l
+    n = tag[0] - 2
+    return ((t - base) << 16) + int.from_bytes(tag[1:3], "big"), tag[3:3 + n]
+
+
+def judge_disorder(lines, base):
+    """lines in an order (or multiplicity) an image rendered line by line would not have: a repeated line, two
+    adjacent lines exchanged.  Judged by the memory image the lines describe (address -> byte, later lines win
+    nowhere: only consistent descriptions are generated): a memory-image conversion must decode to exactly that
+    image, a blob conversion - if it is accepted at all - must be exactly that image from address 0."""
+    m = M()
+    bl = mk_binlines(lines)
+    img = {}
+    for l in lines:
+        a, d = line_addr(l, base)
+        for i, x in enumerate(d):
+            img[a + i] = x
+    problems = []
+    mi = run_impl(m.Bf3File.bf2_convert_payload, bl, MEMIMG)
+    if mi[0] == "ok":
+        got, pos, b = {}, 0, mi[1]
+        try:
+            while pos < len(b):
+                a, n = int.from_bytes(b[pos:pos + 4], "big"), int.from_bytes(b[pos + 4:pos + 8], "big")
+                for i, x in enumerate(b[pos + 8:pos + 8 + n]):
+                    got[a + i] = x
+                pos += 8 + n
+        except Exception:   # noqa
+            got = None
+        if got != img:
+            problems.append(("memimage", "memory image of out-of-order / repeated lines decodes to another image than the lines describe "
+                                         "(%d bytes described, %s decoded)" % (len(img), len(got) if got is not None else "garbage")))
+    elif mi[1] not in FORMAT_ERRS:
+        problems.append(("memimage", "memory image conversion raised %s" % mi[1]))
+    b = run_impl(m.Bf3File.bf2_convert_payload, bl, BLOB)
+    if b[0] == "ok":
+        want = bytes(img[i] for i in range(len(img))) if sorted(img) == list(range(len(img))) else None
+        if b[1] != want:
+            problems.append(("blob", "out-of-order / repeated lines accepted as a blob of %d bytes that is not the image they describe (%s bytes)"
+                             % (len(b[1]), len(want) if want is not None else "not contiguous from 0")))
+    elif b[1] not in FORMAT_ERRS:
+        problems.append(("blob-gap-wrong-error", b[1]))
+    return problems
+
+
+def disorder_variants(r, lines):
+    n = len(lines)
+    out = []
+    if n >= 1:
+        i = r.choice([0, n - 1, r.randrange(n)])
+        out.append(("repeat", lines[:i + 1] + [lines[i]] + lines[i + 1:]))
+        out.append(("repeat-last", lines + [lines[-1]]))
+    if n >= 2:
+        i = r.choice([0, n - 2, r.randrange(n - 1)])
+        out.append(("swap", lines[:i] + [lines[i + 1], lines[i]] + lines[i + 2:]))
+        out.append(("reverse", lines[::-1]))
+        out.append(("first-last", lines[1:] + lines[:1]))
+    return out
+
+
+
 def hole_section(r, base, first_len, skip, size):
     """a blob whose first part [0, first_len) lies on the first page and whose second part starts
     on page 1 + skip (tag type base + 1 + skip): `skip` whole tag types are missing in between"""
@@ -1707,6 +1770,12 @@ def search(ctx):
             if s.base in SPEC and SPEC[s.base]["kind"] == "blob" and s.defect in (None, "gap", "nonzero"):
                 report(ctx, judge_lines(s.lines, s.extents, s.defect is None),
                        {"lines": [list(map(jl, l)) for l in s.lines], "extents": jext(s.extents), "contig": s.defect is None})
+                if s.defect is None and len(s.lines) <= 400:
+                    for label, ls in disorder_variants(r, s.lines):
+                        ctx.case(("disorder", label, tuple(l[3] for l in ls)))
+                        ctx.dist["search:disorder:" + label] += 1
+                        report(ctx, judge_disorder(ls, s.base),
+                               {"lines": [list(map(jl, l)) for l in ls], "disorder": label, "base": s.base})
     # 4. a few large images (up to 200000 bytes)
     n_big = ctx.budget(3, 40) * (2 if escalate else 1)
     for k in range(n_big):
@@ -1785,6 +1854,13 @@ def replay(ctx, data):
             exp, _ = expected_components(header, secs)
             print("generator: sections", [(hex(s.base), len(s.image), s.defect) for s in secs])
             pr = judge_file(text, header, secs, d["enforce"], names)
+            for p in pr:
+                print("  VIOLATED:", p)
+            rc |= bool(pr)
+        elif d.get("lines") and d.get("disorder"):
+            lines = [(l[0], l[1], bytes.fromhex(l[2]), bytes.fromhex(l[3])) for l in d["lines"]]
+            print("lines (%s):" % d["disorder"], [(hex(l[0]), l[2][:3].hex(), len(l[2]) - 3) for l in lines][:20])
+            pr = judge_disorder(lines, d["base"])
             for p in pr:
                 print("  VIOLATED:", p)
             rc |= bool(pr)
